@@ -92,7 +92,7 @@ def patched(obj, name, value):
         setattr(obj, name, old)
 
 
-def verdict_root_stub(c, success="true", prec="zero", log=None, max_fail=2, diverge_at=None):
+def verdict_root_stub(c, success="true", prec="zero", log=None, max_fail=2, diverge_at=None, congruent=False):
     """contract stub for optimizer.nonlinear_roots: arbitrary root K, success per mode, prec >= 0.
     success: 'true' | 'false' | 'fork' ; prec: 'zero' | 'sym'.  max_fail bounds the number of solves that may come
     back failed (success False or prec >= tol) on forking paths (unwinding bound)."""
@@ -114,7 +114,14 @@ def verdict_root_stub(c, success="true", prec="zero", log=None, max_fail=2, dive
             if log is not None:
                 log.append(dict(i=i, success=False, prec=float("nan"), tol=tol, root=root, diverged=True, bad_guess=bad_guess))
             return root, (False, 0, 0, 0, float("nan"))
-        K = c.uf("Kroot", [], n, fresh=True)
+        if congruent:
+            # a deterministic solver: the root it returns is a function of the stage equations (time, state, step) AND of the initial
+            # guess it was started from - two systems in identical situations get identical roots, anything else is a different term
+            aa = list(additional_args)
+            args_ = list(flat(c, x0)) + [aa[1]] + list(flat(c, aa[2])) + [aa[3]] if len(aa) >= 4 else list(flat(c, x0))
+            K = c.uf("Kroot", args_, n, fresh=False)
+        else:
+            K = c.uf("Kroot", [], n, fresh=True)
         root = c.array(K).reshape(shape)
         exhausted = state["fails"] >= max_fail
         if success == "true":
